@@ -206,7 +206,10 @@ class FieldData:
                "Cannot rename the line to '{}'\n".format(value)+
                "ID not unique\n"+
                "Matching previous line: {}".format(str(other)))
-    if value is not None and self.vlevel >= 3:
+    if value is not None and (self.vlevel >= 3 or
+        (renaming_connected and self.vlevel >= 1)):
+      # (the new name of a connected line is read, and validated, when the
+      # line is registered again: an invalid one is refused before that)
       self._field_or_default_datatype(fieldname, value)
       gfapy.Field._validate_gfa_field(value, self._field_datatype(fieldname),
           fieldname)
